@@ -502,6 +502,12 @@ func (g *gen) inlCall(d int) (string, ivl) {
 	f := inlFns[g.r.Intn(len(inlFns))]
 	var as []string
 	var ivs []ivl
+	// The inliner substitutes call-free argument expressions at their uses (the
+	// library functions it is meant for use every argument once), so arguments
+	// here must not be able to fail.
+	saved := g.noPanic
+	g.noPanic = true
+	defer func() { g.noPanic = saved }()
 	for range f.nargs {
 		e, iv := g.intExpr(d)
 		e, iv = fit(e, iv, 1<<20)
